@@ -87,6 +87,17 @@ CLAIMS = {
              "wrap-around as produced by the repository's compilers; the text-to-value direction (std::strto*) "
              "is not decided",
         technique="static analysis: interval partition + partial evaluation (symbolic digit stream) of the AST"),
+    "C14": dict(
+        level="other", engine="engine A (cfg.py)",
+        text="Structural and truth-table rules over the log filter and routing code: capacity of containers indexed "
+             "by a cast enumerator vs. the largest enumerator, exhaustive truth tables of the three level filters and "
+             "of pass() vs. processLevel() (pre-check soundness), switch/enumerator agreement of the pre-check, loop "
+             "shapes of Filters::pass (conjunction), Logging::log, Log::message, ILogDest::handleMessage "
+             "(exactly-once delivery under the filters), completeness/distinctness of the class and level name "
+             "tables, single-writer and no-reset rules for the duplicate policy.",
+        note="trusts clang AST/CFG; the full (level x class x filter-history) table as executed is not decided",
+        also=("engine B (boolshape.py)", "engine E (effects.py)"),
+        technique="static analysis: enum-capacity facts, truth tables over orderings, CFG loop-shape rules"),
     "C20": dict(
         level="other", engine="engine E (effects.py)",
         text="Static lockset/dominance and initialisation-order analysis of every Singleton<T>::instance/reset and "
